@@ -188,6 +188,9 @@ func init() {
 			{Plugin: "sites", Func: "mobius.(*ThreadedNewsYAML).DeleteArticle", Kinds: []string{"site", "post"}},
 			{Plugin: "sites", Func: "mobius.(*ThreadedNewsYAML).CreateGrouping", Kinds: []string{"site", "post"}},
 			{Plugin: "yamltags", Opts: "hotline.ThreadedNews hotline.NewsCategoryListData15 hotline.NewsArtData"},
+			{Plugin: "sites", Func: "mobius.(*ThreadedNewsYAML).DeleteNewsItem", Kinds: []string{"site", "guarded"}},
+			{Plugin: "sites", Func: "mobius.(*ThreadedNewsYAML).GetArticle", Kinds: []string{"guarded"}},
+			{Plugin: "sites", Func: "mobius.(*ThreadedNewsYAML).ListArticles", Kinds: []string{"site", "guarded"}},
 			{Plugin: "sites", Func: "hotline.(*NewsCategoryListData15).GetNewsArtListData", Kinds: []string{"site"}},
 		}, fnItems(nil, "hotline.(*NewsArtList).Read", "hotline.(*NewsArtListData).Read", "hotline.(*NewsCategoryListData15).Read")...),
 		Decided: []string{
